@@ -53,6 +53,12 @@ func staticSetup() *staticEnv {
 		fatal("%v", err)
 	}
 	e := &staticEnv{tmp: tmp, root: filepath.Join(tmp, "root"), markers: map[string]string{}, routers: map[string]*rux.Router{}}
+	// a second copy of the tree in a directory NAMED LIKE THE URL PREFIX (<tmp>/pub/assets), with a secret beside it
+	root2 := filepath.Join(tmp, "pub", "assets")
+	for _, rt := range []string{e.root, root2} {
+		os.MkdirAll(filepath.Join(rt, "sub"), 0o755)
+		os.MkdirAll(filepath.Join(rt, "lib.js"), 0o755) // a directory whose name ends like an allowed extension
+	}
 	os.MkdirAll(filepath.Join(e.root, "sub"), 0o755)
 	os.MkdirAll(filepath.Join(tmp, "root-internal"), 0o755) // a sibling whose name starts with the root's name
 	write := func(rel, marker string) {
@@ -61,11 +67,13 @@ func staticSetup() *staticEnv {
 		}
 	}
 	for rel, m := range map[string]string{"root/a.txt": "MARK-A-TXT", "root/a.css": "MARK-A-CSS", "root/index.html": "MARK-INDEX",
-		"root/sub/b.js": "MARK-B-JS", "root/c.mjs": "MARK-C-MJS"} {
+		"root/sub/b.js": "MARK-B-JS", "root/c.mjs": "MARK-C-MJS", "root/lib.js/index.html": "MARK-LIBJS-INDEX"} {
 		write(rel, m)
+		write("pub/assets/"+strings.TrimPrefix(rel, "root/"), m)
 		e.markers[strings.TrimPrefix(rel, "root/")] = m
 	}
-	for rel, m := range map[string]string{"secret.txt": "SECRET-TXT", "secret.css": "SECRET-CSS", "root-internal/key.css": "SECRET-KEY"} {
+	for rel, m := range map[string]string{"secret.txt": "SECRET-TXT", "secret.css": "SECRET-CSS", "root-internal/key.css": "SECRET-KEY", "pub/secret.txt": "SECRET-PUB-TXT",
+		"pub/secret.css": "SECRET-PUB-CSS"} {
 		write(rel, m)
 		e.outside = append(e.outside, m)
 	}
@@ -75,6 +83,7 @@ func staticSetup() *staticEnv {
 		e.routers[name] = r
 	}
 	mk("dir", func(r *rux.Router) { r.StaticDir("/assets", e.root) })
+	mk("dir-samename", func(r *rux.Router) { r.StaticDir("/assets", root2) })
 	mk("fs", func(r *rux.Router) { r.StaticFS("/assets", http.Dir(e.root)) })
 	mk("css", func(r *rux.Router) { r.StaticFiles("/assets", e.root, "css") })
 	mk("cssjs", func(r *rux.Router) { r.StaticFiles("/assets", e.root, "css|js") })
@@ -160,7 +169,8 @@ func staticReplay(s *Summary, raw json.RawMessage) {
 				// redirects and errors are not constrained (confinement is a safety claim): eg "a.css/./" is a 500 in net/http
 			default:
 				// a directory may be listed or redirected, index.html may be served for it; otherwise no file content
-				if served != "" && !(model.Kind == "dir" && served == "index.html") {
+				idx := strings.TrimPrefix(strings.Join(model.Path, "/")+"/index.html", "/")
+				if served != "" && !(model.Kind == "dir" && served == idx && name != "css" && name != "cssjs") {
 					s.mismatch(desc("precision", fmt.Sprintf("answered %d with the content of %s, the model serves %s", w.Code, served, model.Kind)), c)
 				}
 			}
